@@ -12,6 +12,7 @@ package proxy
 
 import (
 	"bytes"
+	"context"
 	"encoding/binary"
 	"fmt"
 	"os"
@@ -44,6 +45,8 @@ type nspec struct {
 	// Alias: a second top-level literal that SHARES the child node objects of node 0 (what
 	// command.Manager.RegisterWithAliases builds): the proxy tree is a DAG, not a tree.
 	Alias bool `json:"alias,omitempty"`
+	// Fork: the redirect is a FORK with a redirect modifier (brigadier's "execute as ..." style) instead of a plain one.
+	Fork bool `json:"fork,omitempty"`
 }
 
 // Prior: what happened on the SAME Proxy before the merge that is checked.
@@ -75,6 +78,9 @@ func (c caseSpec) String() string {
 		}
 		if n.Redir != -1 {
 			fmt.Fprintf(&sb, "->%d", n.Redir)
+			if n.Fork {
+				sb.WriteString("(fork)")
+			}
 		}
 		sb.WriteByte(' ')
 	}
@@ -215,7 +221,7 @@ func hasChildren(s []nspec, i int) bool {
 	return false
 }
 
-const nBackends = 6
+const nBackends = 8
 
 // forEachProxyTree calls f for every proxy tree of the tier's family.
 func forEachProxyTree(thorough bool, f func(t []nspec)) {
@@ -261,6 +267,12 @@ func forEachProxyTree(thorough bool, f func(t []nspec)) {
 						t[i].Redir = tgt
 						t[i].Req = rq
 						f(t)
+						if thorough || len(e) == 0 {
+							// the same redirect as a fork with a modifier (quick: only without a second command)
+							tf := append([]nspec(nil), t...)
+							tf[i].Fork = true
+							f(tf)
+						}
 						if thorough {
 							// a second redirect from another childless node (no redirect chains through redirecting nodes)
 							for j := i + 1; j < len(t); j++ {
@@ -288,6 +300,8 @@ func forEachProxyTree(thorough bool, f func(t []nspec)) {
 }
 
 // ---------- building real trees ----------
+
+var c23Modifier = brigodier.ModifierFunc(func(c *brigodier.CommandContext) (context.Context, error) { return c, nil })
 
 type markCmd struct{ idx int }
 
@@ -337,7 +351,9 @@ func buildProxyTree(root *brigodier.RootCommandNode, s []nspec, rec *reqRec) []b
 			if req != nil {
 				b = b.Requires(req)
 			}
-			if redirect != nil {
+			if redirect != nil && n.Fork {
+				b = b.Fork(redirect, c23Modifier)
+			} else if redirect != nil {
 				b = b.Redirect(redirect)
 			}
 			return b.Build()
@@ -346,7 +362,9 @@ func buildProxyTree(root *brigodier.RootCommandNode, s []nspec, rec *reqRec) []b
 		if req != nil {
 			b = b.Requires(req)
 		}
-		if redirect != nil {
+		if redirect != nil && n.Fork {
+			b = b.Fork(redirect, c23Modifier)
+		} else if redirect != nil {
 			b = b.Redirect(redirect)
 		}
 		return b.Build()
@@ -400,6 +418,14 @@ func lit(name string, children ...brigodier.CommandNode) brigodier.CommandNode {
 	return n
 }
 
+func arg(name string, children ...brigodier.CommandNode) brigodier.CommandNode {
+	n := brigodier.Argument(name, brigodier.Bool).Executes(packet.PlaceholderCommand).Build()
+	for _, c := range children {
+		n.AddChild(c)
+	}
+	return n
+}
+
 func buildBackend(v int) *backendTree {
 	bt := &backendTree{root: &brigodier.RootCommandNode{}, all: map[brigodier.CommandNode]bool{}}
 	switch v {
@@ -414,6 +440,16 @@ func buildBackend(v int) *backendTree {
 		bt.tops = []brigodier.CommandNode{lit("c", lit("x")), lit("a", lit("q"))}
 	case 5:
 		bt.tops = []brigodier.CommandNode{lit("a", lit("x", lit("w"))), lit("b", lit("x")), lit("c")}
+	case 6:
+		// vanilla-shaped: an argument node with a child, and "execute run" redirecting to the backend ROOT (which the
+		// merge mutates by adding the proxy nodes)
+		run := brigodier.Literal("run").Redirect(bt.root).Build()
+		bt.tops = []brigodier.CommandNode{lit("execute", run), lit("c", arg("y", lit("z")))}
+	case 7:
+		// a backend node redirecting to the backend node "a" that a usable proxy command replaces, and an argument
+		// child under a name ("b") the proxy may also replace
+		a := lit("a", lit("q"))
+		bt.tops = []brigodier.CommandNode{a, brigodier.Literal("d").Redirect(a).Build(), lit("b", arg("x"))}
 	default:
 		panic("backend variant")
 	}
@@ -435,7 +471,7 @@ func snapshot(n brigodier.CommandNode) string {
 	var sb strings.Builder
 	var walk func(n brigodier.CommandNode)
 	walk = func(n brigodier.CommandNode) {
-		fmt.Fprintf(&sb, "%p:%T:%s:cmd=%v:req=%v:redir=%v{", n, n, n.Name(), n.Command() != nil, n.Requirement() != nil, n.Redirect() != nil)
+		fmt.Fprintf(&sb, "%p:%T:%s:cmd=%v:req=%v:redir=%p{", n, n, n.Name(), n.Command() != nil, n.Requirement() != nil, n.Redirect())
 		n.ChildrenOrdered().Range(func(_ string, c brigodier.CommandNode) bool { walk(c); return true })
 		names := make([]string, 0, len(n.Children()))
 		for k, c := range n.Children() {
